@@ -38,6 +38,10 @@
 (*   try     protocols enabled on the command line: "12" (default: SSH-2,    *)
 (*           falling back to SSH-1 on a version mismatch), "2", "1"          *)
 (*   cliTimeout   -t given (a client audit then gives up waiting)            *)
+(*   granular     -g: sequence of (min, pref, max) requests; non-empty = the  *)
+(*           granular group-exchange test replaces probing, rate check and   *)
+(*           report: one probe connection per request and advertised          *)
+(*           group-exchange algorithm, then the sizes handed out are listed   *)
 (***************************************************************************)
 EXTENDS Integers, Sequences, FiniteSets, TLC
 
@@ -334,13 +338,26 @@ GexBegin ==
     /\ UNCHANGED <<srv, nConn, hkTried, hkParsed, hkGot, hkCur, gexIdx, gexStage, gexStep, smallest, reconnFailed, curReq, asked, reported,
                    rate, faults, waits, lastRead, handshakeOK, reportShown, exit, kexReqOutside, maxKexReq, openAtExit>>
 GexAlg ==
-    /\ pc = "gex_alg"
+    /\ pc = "gex_alg" /\ srv.granular = <<>>
     /\ IF NextGex = 0 \/ reconnFailed
        THEN pc' = "rate_begin" /\ UNCHANGED <<gexIdx, gexStage, gexStep, smallest, curReq>>
        ELSE /\ gexIdx' = NextGex /\ gexStage' = "first" /\ gexStep' = 1 /\ smallest' = 0 /\ curReq' = FirstReq
             /\ pc' = "gex_conn"
     /\ UNCHANGED <<srv, sock, nConn, hkTried, hkParsed, hkGot, hkCur, reconnFailed, asked, reported,
                    rate, faults, waits, lastRead, handshakeOK, reportShown, exit, kexReqOutside, maxKexReq, openAtExit>>
+
+\* -g: for every request, in order, one probe per advertised group-exchange algorithm (sha1 before sha256); when the list is
+\* exhausted the sizes are printed and the run ends with status 0 - no algorithm report, no rate check
+GrNext ==
+    /\ pc = "gex_alg" /\ srv.granular # <<>>
+    /\ IF gexStep > Len(srv.granular)
+       THEN /\ pc' = "exit" /\ exit' = 0 /\ UNCHANGED <<gexIdx, gexStep, gexStage, smallest, curReq>>
+       ELSE IF NextGex = 0
+            THEN /\ gexStep' = gexStep + 1 /\ gexIdx' = 1 /\ pc' = "gex_alg" /\ UNCHANGED <<exit, gexStage, smallest, curReq>>
+            ELSE /\ gexIdx' = NextGex /\ gexStage' = "granular" /\ smallest' = 0 /\ curReq' = srv.granular[gexStep]
+                 /\ pc' = "gex_conn" /\ UNCHANGED <<exit, gexStep>>
+    /\ UNCHANGED <<srv, sock, nConn, hkTried, hkParsed, hkGot, hkCur, reconnFailed, asked, reported,
+                   rate, faults, waits, lastRead, handshakeOK, reportShown, kexReqOutside, maxKexReq, openAtExit>>
 
 \* after a probe: decide what the loop does next (gextest.py:146-170)
 AfterProbe(res, rf) ==
@@ -384,9 +401,14 @@ GexLoop ==
                              ELSE reported
               /\ gexIdx' = gexIdx + 1 /\ pc' = "gex_alg"
               /\ UNCHANGED <<gexStage, gexStep, curReq>>
+         [] gexStage = "granular" ->
+              \* a failed reconnect ends the whole test with the failure status; otherwise on to the next algorithm / request
+              /\ IF reconnFailed THEN pc' = "exit" /\ UNCHANGED gexIdx ELSE pc' = "gex_alg" /\ gexIdx' = gexIdx + 1
+              /\ UNCHANGED <<gexStage, gexStep, curReq, reported>>
          [] OTHER -> FALSE
+    /\ exit' = IF gexStage = "granular" /\ reconnFailed THEN 3 ELSE exit
     /\ UNCHANGED <<srv, sock, nConn, hkTried, hkParsed, hkGot, hkCur, smallest, reconnFailed, asked,
-                   rate, faults, waits, lastRead, handshakeOK, reportShown, exit, kexReqOutside, maxKexReq, openAtExit>>
+                   rate, faults, waits, lastRead, handshakeOK, reportShown, kexReqOutside, maxKexReq, openAtExit>>
 
 \* every probe makes its own connection; a refused one counts as "reconnect failed"
 GexConnect(ok) ==
@@ -511,7 +533,7 @@ Exit ==
 Core ==
     \/ \E ok \in BOOLEAN : HConnect(ok) \/ HkConnect(ok) \/ GexConnect(ok)
     \/ HBanner \/ HSendKex \/ HkBegin \/ HkDone \/ HkBanner \/ HkSendKex \/ HkInit \/ HkInit2
-    \/ GexBegin \/ GexAlg \/ GexLoop \/ GexBanner \/ GexSendKex \/ GexReq \/ GexInit
+    \/ GexBegin \/ GexAlg \/ GrNext \/ GexLoop \/ GexBanner \/ GexSendKex \/ GexReq \/ GexInit
     \/ \E o \in Outcomes : HBannerRead(o) \/ HkBannerRead(o) \/ HkRecvKex(o) \/ HkReply(o) \/ HkGroup(o)
                            \/ GexBannerRead(o) \/ GexRecvKex(o) \/ GexGroup(o) \/ GexReply(o)
     \/ RateBegin \/ RateDrain \/ RateEnd \/ RateTimeUp \/ \E bn \in BOOLEAN : RateReply(bn) \/ RateOpen(bn)
@@ -530,7 +552,8 @@ FairSpec == Spec /\ WF_vars(Next)
 (* properties *)
 \* C09
 ExitDocumented == pc = "done" => exit \in {0, 1, 2, 3}
-ReportIffHandshake == pc = "done" => /\ (handshakeOK => (reportShown /\ exit \in {0, 2, 3}))
+ReportIffHandshake == pc = "done" => /\ ((handshakeOK /\ srv.granular = <<>>) => (reportShown /\ exit \in {0, 2, 3}))
+                                      /\ ((handshakeOK /\ srv.granular # <<>>) => (~reportShown /\ exit \in {0, 3}))     \* -g prints sizes, not a report
                                       /\ (~handshakeOK => (~reportShown /\ exit = 1))
 TotalConn == nConn["handshake"] + nConn["hostkey"] + nConn["gex"] + nConn["rate"]
 BoundedWaiting == waits <= TotalConn
@@ -544,7 +567,7 @@ FootprintBounded ==
     /\ ((hs.sshv = 1 \/ srv.role = "client") => nConn["hostkey"] + nConn["gex"] + nConn["rate"] = 0)    \* no probes of SSH-1 peers or of clients
     /\ nConn["hostkey"] <= Len(srv.hk)                  \* at most one per probed host-key type ...
     /\ ((sock.open /\ sock.phase = "hostkey") => hkCur \notin hkParsed)   \* ... and never for a type already answered (RSA family)
-    /\ nConn["gex"] <= 9 * Cardinality(srv.gex)
+    /\ nConn["gex"] <= (IF srv.granular = <<>> THEN 9 ELSE Len(srv.granular)) * Cardinality(srv.gex)
     /\ nConn["rate"] <= RateCap
     /\ ((srv.skipRate \/ ~srv.dh) => nConn["rate"] = 0)
     /\ rate.inflight <= RateConc
@@ -559,14 +582,19 @@ ProbesOnlyAfterHandshake == (nConn["hostkey"] + nConn["gex"] + nConn["rate"] > 0
 \* C12 (fault-free behaviours): what is reported is the smallest group handed out, or the follow-up answer for OpenSSH
 Answers(a) == IF a \in DOMAIN asked THEN {asked[a][i][2] : i \in 1..Len(asked[a])} \ {0} ELSE {}
 LastAnswer(a) == asked[a][Len(asked[a])][2]
-GexReportRule == (pc = "done" /\ faults = 0) => \A a \in srv.gex :
+GexReportRule == (pc = "done" /\ faults = 0 /\ srv.granular = <<>> /\ hs.sshv = 2 /\ srv.role = "server" /\ handshakeOK) => \A a \in srv.gex :
     IF Answers(a) = {} THEN a \notin DOMAIN reported
     ELSE /\ a \in DOMAIN reported
          /\ IF srv.openssh /\ reported[a].fallback
             THEN /\ reported[a].bits = LastAnswer(a) /\ asked[a][Len(asked[a])][1] = SecondReq /\ reported[a].bits # 2048
             ELSE reported[a].bits = Min(Answers(a)) \/ (srv.openssh /\ asked[a][Len(asked[a])][1] = SecondReq /\ reported[a].bits = LastAnswer(a))
 NoSizeWhenRefused == pc = "done" => \A a \in DOMAIN reported : reported[a].bits > 0 /\ reported[a].bits \in Answers(a)
-GexRequestsFixed == \A a \in DOMAIN asked : Len(asked[a]) <= 9
+GexRequestsFixed == \A a \in DOMAIN asked : Len(asked[a]) <= (IF srv.granular = <<>> THEN 9 ELSE Len(srv.granular))
+\* -g, fault-free: every request was put to every advertised group-exchange algorithm once, in order, and answered by the server's rule
+GranularRule == (pc = "done" /\ faults = 0 /\ srv.granular # <<>> /\ handshakeOK) => \A a \in srv.gex :
+    /\ a \in DOMAIN asked /\ Len(asked[a]) = Len(srv.granular)
+    /\ \A i \in 1..Len(srv.granular) :
+          asked[a][i] = <<srv.granular[i], Group(srv, srv.granular[i][1], srv.granular[i][2], srv.granular[i][3])>>
 
 \* C11 connection pattern: one probe answers for the whole RSA family, all members alike
 RsaFanOut == \A t \in RSAFam \cap DOMAIN hkGot : \A u \in RSAFam : u \in DOMAIN hkGot /\ hkGot[u] = hkGot[t]
